@@ -27,9 +27,14 @@ structure LineSafe (cfg : Config) (m : MatcherI) (buf : Bytes) (sl : List SLine)
       ∀ j', p ≤ j' → j' < j → pmLine cfg m sl j' = false) ∨
     (offsetAt sl p + i = buf.length ∧ Term cfg.lineTerm.asByte (bytesAt sl (sl.length - 1)) ∧
       ∀ j, p ≤ j → j < sl.length → pmLine cfg m sl j = false)
+  /-- a candidate only has to be no false negative: it points into a line with no matching line before it, or
+  (since /repo 4165f41 a candidate can be the end of an unconfirmed match) behind the final terminator when no line
+  matches; the searcher judges the candidate's line on its own -/
   candidate_ok : ∀ p i, p < sl.length → m.findCandidateLine (buf.drop (offsetAt sl p)) = some (.candidate i) →
-    ∃ j, p ≤ j ∧ InLine cfg.lineTerm.asByte sl j (offsetAt sl p + i) ∧
-      ∀ j', p ≤ j' → j' < j → pmLine cfg m sl j' = false
+    (∃ j, p ≤ j ∧ InLine cfg.lineTerm.asByte sl j (offsetAt sl p + i) ∧
+      ∀ j', p ≤ j' → j' < j → pmLine cfg m sl j' = false) ∨
+    (offsetAt sl p + i = buf.length ∧ Term cfg.lineTerm.asByte (bytesAt sl (sl.length - 1)) ∧
+      ∀ j, p ≤ j → j < sl.length → pmLine cfg m sl j = false)
 
 theorem firstFrom_eq_none {f : Nat → Bool} : ∀ {d p : Nat}, (∀ j, p ≤ j → j < p + d → f j = false) →
     firstFrom f p d = none := by
@@ -298,29 +303,39 @@ theorem findLoop_spec (L : Layout t buf sl) (hlen : buf.length = offsetAt sl sl.
             | zero => rfl
             | succ f => rw [findByLineFastLoop]; simp
         | candidate i =>
-          obtain ⟨j, hpj, hin, hbefore⟩ := hs.candidate_ok p i hplt hc
-          have hj := hin.1
-          have hloc := locate_inLine L hlen (ht ▸ hin)
-          simp only [ht, hloc]
-          have hsl : slice buf (span sl j).s (span sl j).e = bytesAt sl j := L.slice_line j hj
-          rw [hsl]
-          have hpmj : m.isMatch (withoutTerminator (bytesAt sl j) cfg.lineTerm) = pmLine cfg m sl j := rfl
-          rw [hpmj]
-          cases hv : pmLine cfg m sl j
-          · simp only [Bool.false_eq_true, if_false]
-            have he : (span sl j).e = offsetAt sl (j + 1) := rfl
-            rw [he, ih (j + 1) (by omega) (by omega)]
-            rw [firstFrom_skip (p := p) (q := j + 1) (d := sl.length - p) (by omega) (by omega)
-              (fun j' h1 h2 => by
-                rw [hpm j' (by omega)]
-                by_cases hjj : j' = j
-                · subst hjj; exact hv
-                · exact hbefore j' h1 (by omega))]
-            congr 2; omega
-          · simp only [if_true]
-            rw [firstFrom_eq_some hpj (by omega) (by rw [hpm j hj]; exact hv)
-              (fun j' h1 h2 => by rw [hpm j' (by omega)]; exact hbefore j' h1 h2)]
-            rfl
+          rcases hs.candidate_ok p i hplt hc with ⟨j, hpj, hin, hbefore⟩ | ⟨hend, hterm, hall⟩
+          · have hj := hin.1
+            have hloc := locate_inLine L hlen (ht ▸ hin)
+            simp only [ht, hloc]
+            have hne : ¬ ((span sl j).s == buf.length) = true := by
+              have := L.off_lt (show j < sl.length from hj) (Nat.le_refl _)
+              simp [span, hlen]; omega
+            simp only [hne]
+            have hsl : slice buf (span sl j).s (span sl j).e = bytesAt sl j := L.slice_line j hj
+            rw [hsl]
+            have hpmj : m.isMatch (withoutTerminator (bytesAt sl j) cfg.lineTerm) = pmLine cfg m sl j := rfl
+            rw [hpmj]
+            cases hv : pmLine cfg m sl j
+            · simp only [Bool.false_eq_true, if_false]
+              have he : (span sl j).e = offsetAt sl (j + 1) := rfl
+              rw [he, ih (j + 1) (by omega) (by omega)]
+              rw [firstFrom_skip (p := p) (q := j + 1) (d := sl.length - p) (by omega) (by omega)
+                (fun j' h1 h2 => by
+                  rw [hpm j' (by omega)]
+                  by_cases hjj : j' = j
+                  · subst hjj; exact hv
+                  · exact hbefore j' h1 (by omega))]
+              congr 2; omega
+            · simp only [if_true]
+              rw [firstFrom_eq_some hpj (by omega) (by rw [hpm j hj]; exact hv)
+                (fun j' h1 h2 => by rw [hpm j' (by omega)]; exact hbefore j' h1 h2)]
+              rfl
+          · have hloc := locate_end L hlen (by omega) (ht ▸ hterm)
+            simp only [ht, hend, hloc, beq_self_eq_true, if_true]
+            rw [firstFrom_eq_none (fun j h1 h2 => by rw [hpm j (by omega)]; exact hall j h1 (by omega))]
+            cases fuel with
+            | zero => rfl
+            | succ f => rw [findByLineFastLoop]; simp
 
 /-- **A line-safe matcher makes `find_by_line_fast` meet its contract.** -/
 theorem findSpec_of_lineSafe (L : Layout t buf sl) (hlen : buf.length = offsetAt sl sl.length)
@@ -375,9 +390,10 @@ theorem lineSafeCheck_sound (h : lineSafeCheck cfg m buf sl = true) : LineSafe c
     · exact Or.inr ⟨h1, lastTermB_spec h2, noneMatchB_spec h3⟩
   · intro p i hlt hc
     have := hp p hlt
-    simp only [hc, List.any_eq_true, Bool.and_eq_true, decide_eq_true_eq] at this
-    obtain ⟨j, _, ⟨h1, h2⟩, h3⟩ := this
-    exact ⟨j, h1, inLineB_spec h2, noneMatchB_spec h3⟩
+    simp only [hc, Bool.or_eq_true, List.any_eq_true, Bool.and_eq_true, decide_eq_true_eq, beq_iff_eq] at this
+    rcases this with ⟨j, _, ⟨h1, h2⟩, h3⟩ | ⟨⟨h1, h2⟩, h3⟩
+    · exact Or.inl ⟨j, h1, inLineB_spec h2, noneMatchB_spec h3⟩
+    · exact Or.inr ⟨h1, lastTermB_spec h2, noneMatchB_spec h3⟩
 
 end
 end RgVerif.Searcher
